@@ -182,7 +182,6 @@ def monitor_case(c):
                         if idx:
                             e["nodes"][idx[-1]]["s"] = to
                         return e
-                    gone_q = live.get(s["name"], (None, 0))[0] != rq
 
                     def differs(got, want):
                         """not equal, up to the permitted relabel running -> failed of a run whose process is gone"""
@@ -192,7 +191,11 @@ def monitor_case(c):
                             return len(got) != len(want) or any(differs(g, w) for g, w in zip(got, want))
                         if got["r"] != want["r"] or got["nodes"] != want["nodes"]:
                             return True
-                        return got["s"] != want["s"] and not (want["s"] == 1 and got["s"] == 2 and (want["r"] != rq or gone_q))
+                        # running and its relabel failed are one class here: the server's status cache hands out the object that
+                        # GetLatestStatus relabelled in memory, so a query may show either before the file is re-read (the byte-level
+                        # clauses above check the recorded top-level status exactly)
+                        norm = lambda x: 2 if x == 1 else x
+                        return norm(got["s"]) != norm(want["s"])
                     problems = []
                     if qb["byreq"] is None or qa["byreq"] is None:
                         problems.append("GetStatusByRequestID does not answer for the edited run")
@@ -201,7 +204,9 @@ def monitor_case(c):
                     want_recent = [edited(x) if x["r"] == rq else x for x in qb["recent"]]
                     if differs(qa["recent"], want_recent):
                         problems.append("recent history shows %s, expected %s" % (qa["recent"], want_recent))
-                    if qb["latest"] is not None and qb["latest"]["r"] == rq:
+                    if s["name"] in live:
+                        pass    # the latest status is what the live agent answers on its socket, not the history
+                    elif qb["latest"] is not None and qb["latest"]["r"] == rq:
                         if differs(qa["latest"], edited(qb["latest"])):
                             problems.append("latest status shows %s, expected %s" % (qa["latest"], edited(qb["latest"])))
                     elif differs(qa["latest"], qb["latest"]):
